@@ -22,8 +22,13 @@ THEOREMS = [
     'PyDBML.C13.sql_text_no_quote',
     'PyDBML.C13.sql_note_literal',
     'PyDBML.C13.sql_expr_verbatim',
+    'PyDBML.C13.unquote_prepare',
+    'PyDBML.C13.scanQ1_prepare',
+    'PyDBML.C13.scanQ3_prepare',
+    'PyDBML.C13.stringLiteral_reads_one_line',
+    'PyDBML.C13.stringLiteral_reads_triple',
 ]
-MODULES = ['PyDBMLProofs.Props.C13']
+MODULES = ['PyDBMLProofs.Props.C13', 'PyDBMLProofs.Props.C13Lex']
 FNS = ['comment', 'tools_indent', 'remove_bom', 'strip_empty_lines', 'remove_indentation', 'norm',
        'doublequote_string', 'prepare_text_for_dbml', 'quote_string', 'note_option_to_dbml',
        'prepare_text_for_sql', 'textwrap_indent', 'isspace', 'splitlines']
